@@ -155,5 +155,16 @@ pub open spec fn sum_lens(s: Seq<usize>, n: int) -> int decreases n { if n <= 0 
         u.extracted_fn(kern, fn, sig_rw=[("R10", r'Result<T>', 'KResult<T>')],
                        body_rw=[("R10", r'IoError::last_os_error\(\)', 'last_os_error()'), ("R10", r'Error::%s' % ety, 'KError::%s' % ety)],
                        contract="        ensures (r is Ok) == (rc >= 0), r is Ok ==> r->Ok_0 == res // [C19] a negative return is an error, anything else returns what the kernel wrote")
+    # ---- C17: VhostUserHandler::new builds each worker's ring slice (thread spawn: outside Kani; iterator adapters: outside Verus).
+    # The Kani harness c17_registration_rank_bounded re-states this construction in its set-up; the anchor below ties that
+    # re-statement to the real text: if it changes, C17 is undecided (exit 2), never silently accepted.
+    span3 = hnd.impl_span(r'^impl<T> VhostUserHandler<T> where')
+    nb = re.sub(r'\s+', ' ', u.rw.strip_comments(hnd.fn_body("new", within=span3)))
+    u.scan(["C17"], "handler_new_ring_slices_anchor",
+           "for (index, vring) in vrings.iter().enumerate() { if (queues_mask >> index) & 1u64 == 1u64 { thread_vrings.push(vring.clone()); } }" in nb
+           and "VringEpollHandler::new(backend.clone(), thread_vrings, thread_id)" in nb
+           and "for (thread_id, queues_mask) in queues_per_thread.iter().enumerate()" in nb,
+           "VhostUserHandler::new builds worker t's ring slice as the rings whose bit is set in mask t, in increasing queue order (text anchor for the harness set-up)",
+           on_fail="undecided")
     u.raw("fn main() {}\n} // verus!")
     return u
